@@ -392,7 +392,7 @@ def char_to_digit(I, c, radix):
     return some(d) if d < radix else none()
 
 
-@summary("char::from_u32", "core::char::from_u32", "std::char::from_u32", "char::convert::from_u32")
+@summary("char::from_u32", "core::char::from_u32", "std::char::from_u32", "char::convert::from_u32", "from_u32")
 def _(I, v): return char_from_u32(I, v)
 @summary("<char as From<u8>>::from", "<char as From>::from", "core::char::convert::<impl From<u8> for char>::from", "<impl From<u8> for char>::from")
 def _(I, b): return z3.ZeroExt(24, b) if is_sym(b) else b
